@@ -141,6 +141,7 @@ class Sim:
         self.errors = []              # link_error_callback messages, with the index of the transmission
         self.pending_reply = None
         self.neg_frames = []
+        self.neg_usb = []
         self.st_failed = 0
         self.executed = []
         self.drain_tail = 3
@@ -282,6 +283,7 @@ class Sim:
                     # a non-acked answer that still carries bytes: status with retry bits only
                     self.pending_reply = [0x30] + list(o[2])
             self.neg_frames.append(frame)
+            self.neg_usb.append(None if self.pending_reply is None else list(self.pending_reply))
             return
         if self.open_tx:
             self._close_event()
@@ -290,8 +292,10 @@ class Sim:
             if self.evs[0][0] == 'D':                # drain: expanded here into explicit events
                 if self.drain_budget is None:        # a link that does not move (no safelink) must not loop
                     self.drain_budget = len(self.peer.txq) + 4
-                if (self.peer.txq or not self.drv.out_queue.empty() or self.app_busy()) and self.drain_budget > 0:
-                    self.drain_budget -= 1
+                busy = self.app_busy()       # real-thread sessions: the application thread is still at work
+                if busy or ((self.peer.txq or not self.drv.out_queue.empty()) and self.drain_budget > 0):
+                    if not busy:
+                        self.drain_budget -= 1
                     self.evs.insert(0, ['T', 'O', [1, 0x20]])
                     self.drain_tail = 3
                 elif self.drain_tail > 0:
@@ -447,7 +451,6 @@ class Sim:
         rng = random.Random(app['seed'])
         done = threading.Event()
         self.app_busy = lambda: not done.is_set()
-        self.drain_budget = 5000 + 8 * app["n"]      # a link that does not move must still end the session
         self.put_timeouts = 0
 
         def application():
@@ -461,6 +464,8 @@ class Sim:
                         self.accepted.append(f)
                     else:
                         self.put_timeouts += 1         # 2 s without a dequeue: outside the property (wall clock)
+                        if self.put_timeouts >= 3:     # a link that does not move: give up, the session must end
+                            break
                     if rng.random() < 0.5:
                         r = self.drv.receive_packet(0)
                         if r is not None:
